@@ -21,3 +21,5 @@ CONSTANTS
   Spellings = {"canon", "cap", "upper", "mixed"}
   MaskDecoded = FALSE
   ReadFailIsError = TRUE
+  Shapes = {"plain"}
+  RejectQuotesValue = FALSE
